@@ -64,7 +64,9 @@ class Gen:
     def py_resolve(self, L, rid, docs):
         imported = {}
         for i in L["imports"]:
-            S = next(x for x in self.layers if x["name"] == i["target"])
+            S = next((x for x in self.layers if x["name"] == i["target"]), None)
+            if S is None:      # (a later generation of the database no longer has the imported layer)
+                continue
             for lid, o in link_entries(S):
                 imported[lid] = o
         own = frag_of_layer(L)
@@ -370,7 +372,9 @@ def visible_py(g, L, pool):
         own[o["sn"]] = o
     offers = {}
     for pn in L["parent_layers"]:
-        P = layer_named(g, pn)
+        P = next((x for x in g.layers if x["name"] == pn), None)
+        if P is None:    # the parent is gone in this generation: the PARENT-REF dangles, loading fails in the link phase
+            continue
         for o in visible_py(g, P, pool):
             if o["sn"] not in own:
                 offers.setdefault(o["sn"], []).append((PRIO[P["kind"]], o))
@@ -403,7 +407,7 @@ def ancestors(g, T):
             continue
         out.append(X)
         if X["kind"] != "ECU-SHARED-DATA":
-            todo.extend(layer_named(g, pn) for pn in X["parent_layers"])
+            todo.extend(x for pn in X["parent_layers"] for x in g.layers if x["name"] == pn)
     return out
 
 
@@ -982,3 +986,373 @@ def enum_hierarchies(scope):
                 if any(len(X["parents"]) > 1 for X in g.layers):
                     g.features.add("multi-parent")
                 yield (scope, emask, dmask, rev), g
+
+
+# ---------------------------------------------------------------- generations: ONE Database object, modified and refreshed again
+#
+# A *generation history* is planned on the description alone (so the model can be asked for all generations in one batch):
+# g0 is loaded into a Database; every later step modifies the database through the public API the examples use
+# (`db.diag_layer_containers = …` + `add_odx_file` / `add_pdx_file` / `_process_xml_tree`, removal / re-insertion of
+# objects in the lists of a `DiagLayerRaw`) and calls `refresh()` again. The description g_k of generation k says what
+# a *pristine* database with the same content looks like; every oracle of `check_database` is then evaluated on the
+# long-lived object against g_k.
+
+ID_LISTS = ["dops", "structs", "eopfs", "muxs", "tables", "requests", "pos", "neg", "services"]
+# lists that are modified in place (examples/mksomersaultmodifiedpdx.py does so with the lists of a DiagLayerRaw; the lists
+# of the DIAG-DATA-DICTIONARY-SPEC are the same kind of public dataclass field)
+INPLACE = {"requests": "requests", "pos": "positive_responses", "neg": "negative_responses", "services": "diag_comms_raw",
+           "dops": "ddds.data_object_props", "structs": "ddds.structures", "eopfs": "ddds.end_of_pdu_fields", "muxs": "ddds.muxs",
+           "tables": "ddds.tables"}
+EDITS = ["drop", "reid", "swap", "same"]
+
+
+def clone(g):
+    """deep copy of a description (sharing inside it is kept: DIAG-COMM-REF `_obj`, `PARAMS` item lists); uids are kept,
+    so an object that survives a generation keeps its uid and a new Python object under an old description uid is
+    simply the new carrier of that id"""
+    import copy
+    g2 = copy.deepcopy(g)
+    g2.features = set(g.features)
+    return g2
+
+
+def reflatten(g):
+    g.layers = [X for c in g.containers for X in c["layers"]]
+
+
+def id_objects(g, cname=None):
+    """(layer, list name, holder list, obj) of every ID-carrying object below the layers (table rows included)"""
+    out = []
+    for X in g.layers:
+        if cname is not None and X["cont"] != cname:
+            continue
+        for k in ID_LISTS:
+            for o in X[k]:
+                out.append((X, k, X[k], o))
+                if k == "tables":
+                    for r in o["rows"]:
+                        out.append((X, "rows", o["rows"], r))
+    return out
+
+
+def referenced_ids(g):
+    ids = set()
+    for X in g.layers:
+        for r in all_refs(X)[0]:
+            ids.add(r["rid"])
+        for i in X["imports"]:
+            ids.add(i["rid"])
+    return ids
+
+
+def rebind_dcrefs(g):
+    """generator-side: which service a DIAG-COMM-REF means in this generation (feeds the conflict steering only)"""
+    g.build_store()
+    for X in g.layers:
+        for r in X["dcrefs"]:
+            try:
+                o = g.py_resolve(X, r["rid"], ref_docs(X, r))
+            except StopIteration:
+                o = None
+            if o is not None and o.get("kind") == "service":
+                r["_obj"], r["_sn"] = o, o["sn"]
+
+
+def description_ok(g):
+    """generator-side steering (not an oracle): the generation is free of what C09 judges -- inheritance conflicts,
+    two diag-comms of one short name in a layer, a DIAG-COMM-REF to a service the layer defines itself"""
+    try:
+        for X in g.layers:
+            loc = local_objs(X, "services")
+            if len({o["sn"] for o in loc}) != len(loc) or len({o["uid"] for o in loc}) != len(loc):
+                return False
+            if not hierarchy_ok(g, X):
+                return False
+        return True
+    except Exception:  # noqa
+        return False
+
+
+def edit_description(g, rng, edit, cname=None, only_inplace=False, pick=None):
+    """apply one edit to the description in place; -> info dict or None (not applicable).
+    drop: an ID-carrying object vanishes; reid: it gets an id nobody refers to; swap: two objects of one list swap
+    their ids (the id is now carried by another object); same: nothing (a re-parsed revision with equal content)"""
+    if edit == "same":
+        return {"edit": "same"}
+    cands = id_objects(g, cname)
+    if only_inplace:
+        cands = [c for c in cands if c[1] in INPLACE]
+    if pick is not None:
+        cands = [c for c in cands if (c[0]["name"], c[1], c[3]["id"]) == pick]
+    if edit == "swap":
+        cands = [c for c in cands if len(c[2]) >= 2]
+    if not cands:
+        return None
+    refd = referenced_ids(g)
+    hot = [c for c in cands if c[3]["id"] in refd]
+    X, k, holder, o = rng.choice(hot if hot and rng.random() < 0.75 else cands)
+    info = {"edit": edit, "layer": X["name"], "list": k, "id": o["id"], "referenced": o["id"] in refd,
+            "index": next(i for i, x in enumerate(holder) if x is o)}
+    if edit == "drop":
+        holder.pop(info["index"])
+    elif edit == "reid":
+        o["id"] = o["id"] + "v"
+    elif edit == "swap":
+        other = rng.choice([x for x in holder if x is not o])
+        o["id"], other["id"] = other["id"], o["id"]
+        info["other"] = o["id"]
+    return info
+
+
+def container_doc(g, cname):
+    return next(d for c, d in zip(g.containers, to_xml(g)) if c["name"] == cname)
+
+
+def plan_history(g0, rng, n_steps, kinds=None):
+    """-> [(step, g_k)] for k = 1…; `step` is JSON and is all `apply_step` needs"""
+    import copy
+    kinds = kinds or ["replace"] * 8 + ["drop-inplace"] * 4 + ["readd-inplace"] * 3 + ["remove-container"] * 2 + \
+        ["add-container"] * 3 + ["refresh-only"] * 2 + ["reload-all"] * 1 + ["restore"] * 3 + ["retarget"] * 2
+    cur, plan = g0, []
+    removed = []       # in-place removals that can be undone: (layer, list, obj description, index)
+    parked = []        # containers taken out of the database
+    damage = None      # (kind of step that undoes the last destructive step, container): the next step often repairs,
+    #                    so that "dangling -> resolvable again" is as frequent as "resolvable -> dangling"
+    for _ in range(n_steps):
+        for _try in range(12):
+            kind, want_c = rng.choice(kinds), None
+            if damage is not None and _try < 4 and rng.random() < 0.65:
+                kind, want_c = damage
+            g = clone(cur)
+            step = None
+            if kind == "replace" and g.containers:
+                c = rng.choice(g.containers)
+                info = edit_description(g, rng, rng.choice(["drop", "drop", "reid", "reid", "swap", "same"]), cname=c["name"])
+                if info is None:
+                    continue
+                g.containers.remove(c)
+                g.containers.append(c)
+                reflatten(g)
+                step = {"op": "replace", "container": c["name"], "xml": None, "via": rng.choice(["tree", "file", "pdx"]), "info": info}
+                rm2 = [r for r in removed if layer_cont(cur, r[0]) != c["name"]]
+            elif kind == "restore" and g.containers:      # the revision of generation 0 comes back
+                c = next((x for x in g.containers if x["name"] == want_c), None) or rng.choice(g.containers)
+                c0 = next((x for x in g0.containers if x["name"] == c["name"]), None)
+                if c0 is None:
+                    continue
+                g.containers.remove(c)
+                g.containers.append(copy.deepcopy(c0))
+                reflatten(g)
+                step = {"op": "replace", "container": c["name"], "xml": None, "via": rng.choice(["tree", "file", "pdx"]), "info": {"edit": "restore"}}
+                rm2 = [r for r in removed if layer_cont(cur, r[0]) != c["name"]]
+            elif kind == "drop-inplace":
+                info = edit_description(g, rng, "drop", only_inplace=True)
+                if info is None:
+                    continue
+                step = {"op": "drop-inplace", "layer": info["layer"], "list": INPLACE[info["list"]], "id": info["id"], "info": info}
+                X = layer_named(cur, info["layer"])
+                rm2 = removed + [(info["layer"], info["list"], X[info["list"]][info["index"]], info["index"])]
+            elif kind == "readd-inplace" and removed:
+                ln, k, o, idx = removed[-1]
+                X = next((x for x in g.layers if x["name"] == ln), None)
+                if X is None or any(x["id"] == o["id"] for x in X[k]):
+                    continue
+                idx = min(idx, len(X[k]))
+                X[k].insert(idx, copy.deepcopy(o))
+                step = {"op": "readd-inplace", "layer": ln, "list": INPLACE[k], "id": o["id"], "index": idx, "info": {"edit": "readd"}}
+                rm2 = removed[:-1]
+            elif kind == "remove-container" and len(g.containers) >= 2:
+                c = rng.choice(g.containers)
+                g.containers.remove(c)
+                reflatten(g)
+                step = {"op": "remove-container", "container": c["name"], "info": {"edit": "remove-container"}}
+                rm2 = [r for r in removed if layer_cont(cur, r[0]) != c["name"]]
+            elif kind == "add-container" and parked:
+                c = copy.deepcopy(parked[-1])
+                if any(x["name"] == c["name"] for x in g.containers):
+                    continue
+                g.containers.append(c)
+                reflatten(g)
+                step = {"op": "add", "container": c["name"], "xml": None, "via": rng.choice(["tree", "file", "pdx"]), "info": {"edit": "add-container"}}
+                rm2 = removed
+            elif kind == "refresh-only":
+                step = {"op": "refresh-only", "info": {"edit": "none"}}
+                rm2 = removed
+            elif kind == "retarget":     # short-name references re-targeted to some layer, then refresh(): every layer's own view again
+                T = rng.choice(g.layers)
+                step = {"op": "retarget", "layer": T["name"], "info": {"edit": "retarget"}}
+                rm2 = removed
+            elif kind == "reload-all":
+                step = {"op": "reload-all", "xml": None, "via": rng.choice(["tree", "file", "pdx"]), "info": {"edit": "reload"}}
+                rm2 = []
+            if step is None:
+                continue
+            rebind_dcrefs(g)
+            if not description_ok(g):
+                continue
+            if step["op"] in ("replace", "add"):
+                step["xml"] = container_doc(g, step["container"])
+            elif step["op"] == "reload-all":
+                step["xml"] = to_xml(g)
+            if step["op"] == "remove-container":
+                parked = parked + [next(x for x in cur.containers if x["name"] == step["container"])]
+            elif step["op"] == "add":
+                parked = parked[:-1]
+            removed = rm2
+            e = step["info"]["edit"]
+            if e in ("drop", "reid", "swap") and step["info"].get("referenced"):
+                damage = ("readd-inplace", None) if step["op"] == "drop-inplace" else ("restore", step["container"])
+            elif e == "remove-container":
+                damage = ("add-container", None)
+            elif e in ("restore", "readd", "add-container", "reload"):
+                damage = None
+            g.features.add("gen:" + step["info"]["edit"])
+            plan.append((step, g))
+            cur = g
+            break
+    return plan
+
+
+def layer_cont(g, lname):
+    X = next((x for x in g.layers if x["name"] == lname), None)
+    return X["cont"] if X is not None else None
+
+
+def add_docs(db, docs, via):
+    """the ways a document gets into a Database object"""
+    import io
+    import os
+    import tempfile
+    import zipfile
+    if via == "tree":
+        for x in docs:
+            db._process_xml_tree(ET.fromstring(x))
+    elif via == "file":
+        for x in docs:
+            fd, path = tempfile.mkstemp(suffix=".odx-d")
+            try:
+                with os.fdopen(fd, "w", encoding="utf-8") as f:
+                    f.write(x)
+                db.add_odx_file(path)
+            finally:
+                os.unlink(path)
+    else:   # a PDX archive handed over as a binary stream
+        bio = io.BytesIO()
+        with zipfile.ZipFile(bio, "w") as z:
+            for i, x in enumerate(docs):
+                z.writestr(f"doc{i}.odx-d", x)
+        bio.seek(0)
+        db.add_pdx_file(bio)
+
+
+def apply_step(db, step, state):
+    """modify the Database object as the step says (no refresh); `state` keeps the Python objects taken out in place"""
+    from odxtools.nameditemlist import NamedItemList
+    op = step["op"]
+    if op == "load":
+        add_docs(db, step["xml"], step.get("via", "tree"))
+    elif op in ("replace", "remove-container"):
+        db.diag_layer_containers = NamedItemList([c for c in db.diag_layer_containers if c.short_name != step["container"]])
+        if op == "replace":
+            add_docs(db, [step["xml"]], step["via"])
+    elif op == "add":
+        add_docs(db, [step["xml"]], step["via"])
+    elif op == "reload-all":
+        db.diag_layer_containers = NamedItemList()
+        add_docs(db, step["xml"], step["via"])
+    elif op in ("drop-inplace", "readd-inplace"):
+        raw = None
+        for c in db.diag_layer_containers:
+            for pl in c.diag_layers:
+                if pl.short_name == step["layer"]:
+                    raw = pl.diag_layer_raw
+        lst = (getattr(raw.diag_data_dictionary_spec, step["list"][5:]) if step["list"].startswith("ddds.")
+               else getattr(raw, step["list"]))
+        key = (step["layer"], step["list"], step["id"])
+        if op == "drop-inplace":
+            po = by_id([x for x in lst if hasattr(x, "odx_id")], step["id"])
+            lst.pop(next(i for i, x in enumerate(lst) if x is po))
+            state.setdefault("removed", {})[key] = po
+        else:
+            lst.insert(step["index"], state["removed"].pop(key))
+    elif op == "refresh-only":
+        pass
+    elif op == "retarget":
+        from odxtools.utils import retarget_snrefs
+        try:     # (what retarget_snrefs itself does is judged by check_retarget; here only the refresh() after it counts)
+            for c in db.diag_layer_containers:
+                for pl in c.diag_layers:
+                    if pl.short_name == step["layer"]:
+                        retarget_snrefs(db, pl)
+        except Exception:  # noqa
+            pass
+    else:
+        raise ValueError(op)
+
+
+def run_step(db, step, state):
+    """apply + refresh; -> error class or None"""
+    from odxtools.exceptions import OdxError
+    try:
+        with warnings.catch_warnings():
+            warnings.simplefilter("ignore")
+            apply_step(db, step, state)
+            db.refresh()
+        return None
+    except KeyError:
+        return "key"
+    except OdxError:
+        return "odx"
+    except Exception as e:  # noqa
+        return "foreign:" + type(e).__name__
+
+
+def new_database():
+    from odxtools.database import Database
+    return Database()
+
+
+def plan_vanish(g0, pick, edit, mode, via):
+    """enumerated small scope: the ID-carrying object `pick` = (layer, list, id) vanishes (`drop`) resp. gets another id
+    (`reid`) -- by a new revision of its container (`mode` replace) or by taking it out of the layer's list in place --
+    and comes back in the next generation. -> [(step, g1), (step, g2)] or None (steered away from, see description_ok)"""
+    import copy
+    import random
+    rng = random.Random(0)
+    lname, k, lid = pick
+    g1 = clone(g0)
+    info = edit_description(g1, rng, edit, pick=pick)
+    if info is None:
+        return None
+    cname = layer_cont(g0, lname)
+    if mode == "replace":
+        c = next(x for x in g1.containers if x["name"] == cname)
+        g1.containers.remove(c)
+        g1.containers.append(c)
+        reflatten(g1)
+        s1 = {"op": "replace", "container": cname, "xml": None, "via": via, "info": info}
+    else:
+        s1 = {"op": "drop-inplace", "layer": lname, "list": INPLACE[k], "id": lid, "info": info}
+    rebind_dcrefs(g1)
+    if not description_ok(g1):
+        return None
+    if mode == "replace":
+        s1["xml"] = container_doc(g1, cname)
+    g1.features.add("gen:" + edit)
+    g2 = clone(g1)
+    if mode == "replace":
+        c = next(x for x in g2.containers if x["name"] == cname)
+        g2.containers.remove(c)
+        g2.containers.append(copy.deepcopy(next(x for x in g0.containers if x["name"] == cname)))
+        reflatten(g2)
+        rebind_dcrefs(g2)
+        s2 = {"op": "replace", "container": cname, "xml": container_doc(g2, cname), "via": via, "info": {"edit": "restore"}}
+    else:
+        X0, X2 = layer_named(g0, lname), layer_named(g2, lname)
+        X2[k].insert(info["index"], copy.deepcopy(X0[k][info["index"]]))
+        rebind_dcrefs(g2)
+        s2 = {"op": "readd-inplace", "layer": lname, "list": INPLACE[k], "id": lid, "index": info["index"], "info": {"edit": "readd"}}
+    if not description_ok(g2):
+        return None
+    g2.features.add("gen:" + s2["info"]["edit"])
+    return [(s1, g1), (s2, g2)]
